@@ -47,4 +47,6 @@ package bufmodule
 //@   ensures r != nil
 //
 //@ pure func (d DigestType) String() (r)
-//@   property C09
+//@   property C09 C08
+//@   ensures known: d in digestTypeToString ==> r == digestTypeToString[d]
+//@   ensures unknown-is-decimal: !(d in digestTypeToString) ==> r == decimal(d)
